@@ -44,20 +44,23 @@ def VLOOKUP(
 
     col_index_num = int(col_index_num)
 
+    if col_index_num < 1:
+        raise xlerrors.ValueExcelError(
+            'col_index_num must be at least 1')
+
     if col_index_num > len(table_array.values[0]):
         raise xlerrors.ValueExcelError(
             'col_index_num is greater than the number of cols in table_array')
 
-    table_array = table_array.set_index(0)
+    # The first row whose key equals the lookup value counts. Keys are
+    # compared like the `=` operator does, between values of the same type.
+    for row in table_array.values:
+        key = func_xltypes.ExcelType.cast_from_native(row[0])
+        if type(key) is type(lookup_value) and key == lookup_value:
+            return row[col_index_num - 1]
 
-    if lookup_value not in table_array.index:
-        raise xlerrors.NaExcelError(
-            '`lookup_value` not in first column of `table_array`.')
-
-    if col_index_num == 1:
-        return lookup_value
-
-    return table_array.loc[lookup_value].values[col_index_num - 2]
+    raise xlerrors.NaExcelError(
+        '`lookup_value` not in first column of `table_array`.')
 
 
 @xl.register()
